@@ -327,6 +327,80 @@ func roLengthAndCount(mode int, ss []seed) mc.Harness {
 	}
 }
 
+// pairs of fields of one box / directory / segment: a width or size nibble together with the count it governs, a count
+// together with the length next to it (both fields are read by the same few lines of code)
+func roSameBoxPairs(mode int, ss []seed) mc.Harness {
+	type pair struct{ s, a, b int }
+	var pairs []pair
+	for si, s := range ss {
+		groups := map[string][]int{}
+		var order []string
+		for fi, f := range s.doc.Fields {
+			k := f.Name
+			if i := strings.LastIndex(k, "/"); i >= 0 {
+				k = k[:i]
+			} else {
+				k = ""
+			}
+			if _, ok := groups[k]; !ok {
+				order = append(order, k)
+			}
+			groups[k] = append(groups[k], fi)
+		}
+		for _, k := range order {
+			g := groups[k]
+			if len(g) < 2 || len(g) > 48 {
+				continue
+			}
+			for i := 0; i < len(g); i++ {
+				for j := i + 1; j < len(g) && j < i+12; j++ {
+					pairs = append(pairs, pair{si, g[i], g[j]})
+				}
+			}
+		}
+	}
+	few := func(d *gen.Doc, f gen.Field) []uint64 {
+		m := d.Menu(f)
+		if len(m) <= 4 {
+			return m
+		}
+		return []uint64{m[0], m[len(m)-1], m[len(m)/2], m[1]}
+	}
+	const chunk = 8
+	return func(x *mc.Exec) {
+		ch := x.All("pair-chunk", (len(pairs)+chunk-1)/chunk)
+		sigs := map[string]bool{}
+		var n int64
+		for pi := ch * chunk; pi < (ch+1)*chunk && pi < len(pairs); pi++ {
+			p := pairs[pi]
+			s := ss[p.s]
+			fa, fb := s.doc.Fields[p.a], s.doc.Fields[p.b]
+			for _, va := range few(s.doc, fa) {
+				for _, vb := range few(s.doc, fb) {
+					d := &gen.Doc{B: append([]byte{}, s.doc.B...), Fields: s.doc.Fields}
+					d.Set(fa, va)
+					d.Set(fb, vb)
+					for ei := range entryPoints {
+						e := &entryPoints[ei]
+						if !e.accepts(s.kind) && ei != 0 {
+							continue
+						}
+						pristine()
+						res := runEntry(e, envio.New(d.B), mode == oracleAlloc)
+						n++
+						if kind, desc := roJudge(mode, e, res, len(d.B)); kind != "" {
+							roFail(x, sigs, mode, e, kind, desc, fmt.Sprintf("seed %s with %s=%#x and %s=%#x", s.name, fa.Name, va, fb.Name, vb), d.B, res)
+						}
+					}
+				}
+			}
+		}
+		x.Bulk = n - 1
+		x.InputID = hashBytes([]byte(fmt.Sprint("sbp", ch)))
+		x.Outcome = fmt.Sprint(ch % 5)
+	}
+}
+
 // S4: every single-byte substitution
 func roByteSubst(mode int, ss []seed, stride int) mc.Harness {
 	pairs := seedEntryPairs(ss)
@@ -497,6 +571,14 @@ func roSpaces(mode int, tier string) []mc.Space {
 		Rule: "for every supported Exif field alone in a record, in both byte orders: value shapes its parser does not expect (count 0; strings/dates of 0, 1 and 3 characters with and without NUL; a rational as two SHORTs / one LONG / no value; BYTE x4) x every accepting entry point"})
 	sp = append(sp, mc.Space{Name: "shared-value-bytes", H: roSeedsPlain(mode, amplificationSeeds()), NoLevels: true, Isolate: true,
 		Rule: "TIFF blocks whose 40-83 string fields name overlapping or identical value bytes (steps 0, 1, 64, 100; counts 1000-4096), alone and repeated as 24 and 64 Exif segments of one JPEG in alternating byte orders x every accepting entry point: the work and memory of a decode must follow the file's length, not the number of names for the same bytes"})
+	isoSeeds := []seed{}
+	for _, sd := range gs {
+		if sd.kind == "cr3" || sd.kind == "heif" || sd.kind == "avif" || sd.kind == "png" {
+			isoSeeds = append(isoSeeds, sd)
+		}
+	}
+	sp = append(sp, mc.Space{Name: "field-pairs-of-one-box", H: roSameBoxPairs(mode, isoSeeds), NoLevels: true, Isolate: true,
+		Rule: "for every box / chunk payload of the generated CR3, HEIF, AVIF and PNG seeds: every pair of its structural fields at most 12 apart (a width nibble and the count it governs, a count and the length next to it) x 4 values each from the fields' menus (smallest, largest, middle, second) x every accepting entry point"})
 	sp = append(sp, mc.Space{Name: "many-repetitions", H: roSeedsPlain(mode, repetitionSeeds()), NoLevels: true, Isolate: true,
 		Rule: "the smallest legal unit of each container structure repeated 3000-20000 times (Exif segments of 31-130 bytes, XMP segments, empty comments, CMT boxes, 60000 payload-less children of every type the meta box handles, empty PNG chunks, XMP start tags nested 100000-400000 deep; stack limit 16 MiB) x every accepting entry point: a fixed cost per unit must stay small against the unit"})
 	sp = append(sp, mc.Space{Name: "box-headers-at-buffer-edges", H: roBoxEdges(mode), NoLevels: true, Isolate: true,
